@@ -182,7 +182,7 @@ example :
 
 /-- two tasks, each recording into its own innermost scope; the spawned task inherits scope 0 -/
 example :
-    let evs := [Ev.openScope 0 true { name := ['a'] }, .spawn 0 true, .openScope 1 false { name := ['b'] },
+    let evs := [Ev.openScope 0 true false { name := ['a'] }, .spawn 0 true, .openScope 1 false false { name := ['b'] },
                 .record 1 ⟨0, [5], true⟩ (total cat), .record 0 ⟨0, [6], true⟩ (total cat)]
     (run init evs).store 0 = [(0, ⟨0, [6], true⟩)] ∧ (run init evs).store 1 = [(0, ⟨0, [5], true⟩)] := by
   decide
